@@ -1892,6 +1892,7 @@ func (c *DnsController) evictIdleDnsForwarders(now time.Time) {
 			return true
 		}
 
+		verifYield("dnsfwd.evict.idle", entry)
 		if c.dnsForwarderCache.CompareAndDelete(k, entry) {
 			toClose = append(toClose, entry.forwarder)
 		}
@@ -2102,6 +2103,7 @@ func (c *DnsController) forwardWithDialArg(ctx context.Context, upstream *dns.Up
 		if err != nil {
 			return nil, err
 		}
+		verifYield("dnsfwd.acquired", entry)
 		if !entry.beginUse() {
 			continue
 		}
